@@ -1,4 +1,4 @@
-import JjModel.Model.Conflicts
+import JjModel.Model.ConflictsSpec
 /-!
   Line structure (`linesWT`) and marker-line lemmas for the conflict model.
 -/
@@ -120,11 +120,6 @@ theorem linesWT_decomp (ls : List Bytes) (last : Bytes) (hls : ∀ l ∈ ls, Lin
   by_cases h : last = []
   · simp [h, linesWT]
   · simp [h, linesWT_noLF last hlast h]
-
-/-- content that is empty or ends with `\n` -/
-def EndsLF (c : Bytes) : Prop := lacksEol c = false
-
-instance (c : Bytes) : Decidable (EndsLF c) := by unfold EndsLF; infer_instance
 
 theorem lacksEol_append_LF (c : Bytes) : lacksEol (c ++ [LF]) = false := by
   simp [lacksEol]
